@@ -1269,6 +1269,16 @@ fn main() {
             ctx.with_local(|l| run_client_path(&mut w, kind, alg, fudge, path, sh.as_ref(), l));
             ctx.finish(false);
         }
+        if case["lifecycle"].as_bool() == Some(true) {
+            let cfg = vupd::lifecycle::Cfg { axfr: case["axfr"].as_u64().unwrap_or(1) as u8, allow_update: case["allow_update"].as_bool().unwrap_or(true), dnssec: false };
+            ctx.with_local(|l| {
+                l.eval();
+                for f in vupd::lifecycle::run(&std::env::temp_dir().join(format!("verif-c13-{}-lifecycle-replay", std::process::id())), &cfg, || None, &w.rt) {
+                    l.violation(&f.key, &f.what, || case.clone());
+                }
+            });
+            ctx.finish(false);
+        }
         if case["second_step"].as_bool() == Some(true) || case["two_step_closure"].as_bool() == Some(true) {
             ctx.with_local(|l| second::replay(&mut w, &case, l));
             ctx.finish(false);
@@ -1355,7 +1365,11 @@ fn main() {
          MAC fresh / stale / time signed 1, unknown key, unsigned, MAC field = chosen octets stale / fresh, AXFR) the second request is \
          assembled from the reply's octets by a grammar (reply TSIG verbatim on an update / AXFR body; reply MAC + time + fudge [+ error + \
          other] with original id in {body id, 0, length of the first MAC field, the reply's}; the digest-collision layout with the reply \
-         embedded as RDATA of a filler record; the first request's own TSIG): none may take effect, whatever a verifier says.",
+         embedded as RDATA of a filler record; the first request's own TSIG): none may take effect, whatever a verifier says. Part I \
+         (CONFIG-DRIVEN LIFECYCLE, vupd::lifecycle shared with C14): the zone built only through try_from_config (zone file, journal, key \
+         file) for AXFR policy {Deny, AllowAll, AllowSigned} x allow_update {false, true}, started three times (the second and third start \
+         take the journal-recovery branch): unsigned / bad-MAC / signed AXFR and UPDATE probes and a plain query give the same outcome class \
+         at every start, no zone data against the policy, no update effect without a valid TSIG or with allow_update = false.",
     );
     ctx.assume("ring's HMAC is correct; vref::tsig (RFC 8945 4.3.3 digest from the raw bytes) is the reference for 'carries a valid, timely TSIG'");
     ctx.assume("the handler keeps no state besides the record store: the store content is put back after a request that changed it");
@@ -1586,6 +1600,26 @@ fn main() {
         run_client_path(w, *kind, Alg::Sha256, 300, p, Some(sh), l);
     });
 
+    // ---- part I (sixth seed round): config-driven lifecycle - the zone built only through
+    // try_from_config, started three times (zone file, then twice from the journal): the AXFR policy,
+    // allow_update and the TSIG keys must mean after a restart what they meant at the first start
+    {
+        let cfgs = vupd::lifecycle::Cfg::all(false);
+        ctx.set("lifecycle_configurations", json!(cfgs.iter().map(|c| c.name()).collect::<Vec<_>>()));
+        ctx.par_run_init(cfgs.len() as u64, 1, |_| Worker::new(), |i, l, w| {
+            let cfg = cfgs[i as usize];
+            l.eval();
+            let dir = std::env::temp_dir().join(format!("verif-c13-{}-lifecycle-{i}", std::process::id()));
+            let fs = vupd::lifecycle::run(&dir, &cfg, || None, &w.rt);
+            if fs.is_empty() {
+                l.outcome("lifecycle:three-starts-agree");
+            }
+            for f in fs {
+                l.violation(&f.key, &f.what, || json!({"lifecycle": true, "configuration": cfg.name(), "axfr": cfg.axfr, "allow_update": cfg.allow_update, "dnssec": cfg.dnssec}));
+            }
+        });
+    }
+
     // ---- part H: the second step (state carried between requests)
     let h_vars = [Var::DEFAULT, Var { journal: true, ..Var::DEFAULT }, Var { udp: true, ..Var::DEFAULT }, Var { key_named_like_zone: true, ..Var::DEFAULT }];
     ctx.par_run_init(h_vars.len() as u64, 1, |_| Worker::new(), |i, l, w| {
@@ -1605,6 +1639,7 @@ fn main() {
         "signing:query:mac-bad:stale:reply-not-signed",
         "signing:notify:mac-bad:stale:reply-not-signed",
         "two-step-closure:no-effect",
+        "lifecycle:three-starts-agree",
         "second-step:same-as-fresh-handler",
         "second-step:second-rejected:no-effect",
         "second-step:update-applied-on-top-of-the-first",
